@@ -33,10 +33,10 @@ Lemma d_notified A b : d_ok (set_a_notified b A) = d_ok A.
 Proof. destruct A; reflexivity. Qed.
 
 Lemma d_entry c A cl pc :
-  d_ok A = true -> a_pc A = Idle -> a_alive A = true -> entry c (a_role A) cl = Some pc ->
+  ctl_ok A = true -> d_ok A = true -> a_pc A = Idle -> a_alive A = true -> entry c (a_role A) cl = Some pc ->
   d_ok (at_pc pc (withr (set_r_res RNoRes (set_r_call cl (a_r A))) (set_a_notified false A))) = true.
 Proof.
-  intros _ _ _ He. destruct A as [role alive multi sid tok pc0 stack R notified parked].
+  intros _ _ _ _ He. destruct A as [role alive multi sid tok pc0 stack R notified parked].
   unfold entry in He. unfold d_ok. cbn.
   destruct role, cl; try discriminate He; try (destruct (is_bcast c); try discriminate He);
     injection He as <-; reflexivity.
